@@ -5,6 +5,7 @@ import (
 	"go/ast"
 	"go/token"
 	"go/types"
+	"os"
 	"sort"
 
 	"golang.org/x/tools/go/ast/astutil"
@@ -233,6 +234,17 @@ func (n *norm) sroaFunc(file *ast.File, fd *ast.FuncDecl) bool {
 		}
 		return true
 	})
+	// a field type that cannot be written down keeps its variable whole
+	for _, c := range cands {
+		if !c.ok {
+			continue
+		}
+		for i := 0; i < c.st.NumFields(); i++ {
+			if n.typeExpr(c.st.Field(i).Type(), file) == nil {
+				c.ok = false
+			}
+		}
+	}
 	// a variable copied from/to a variable that is not split cannot be split
 	for again := true; again; {
 		again = false
@@ -250,6 +262,9 @@ func (n *norm) sroaFunc(file *ast.File, fd *ast.FuncDecl) bool {
 	}
 	var split []*sroaVar
 	for _, c := range cands {
+		if os.Getenv("VERIF_DEBUG_SROA") != "" {
+			fmt.Fprintf(os.Stderr, "sroa %s.%s ok=%v copies=%d\n", Key(fd), c.obj.Name(), c.ok, len(c.copies))
+		}
 		if c.ok {
 			split = append(split, c)
 		}
@@ -502,6 +517,39 @@ func (n *norm) typeExpr(t types.Type, file *ast.File) ast.Expr {
 		if x.NumMethods() == 0 && x.NumEmbeddeds() == 0 {
 			return &ast.InterfaceType{Methods: &ast.FieldList{}}
 		}
+	case *types.Signature:
+		if x.Recv() != nil || x.TypeParams() != nil {
+			return nil
+		}
+		ft := &ast.FuncType{Params: &ast.FieldList{}}
+		for i := 0; i < x.Params().Len(); i++ {
+			t := x.Params().At(i).Type()
+			var e ast.Expr
+			if x.Variadic() && i == x.Params().Len()-1 {
+				if sl, ok := t.(*types.Slice); ok {
+					if el := n.typeExpr(sl.Elem(), file); el != nil {
+						e = &ast.Ellipsis{Elt: el}
+					}
+				}
+			} else {
+				e = n.typeExpr(t, file)
+			}
+			if e == nil {
+				return nil
+			}
+			ft.Params.List = append(ft.Params.List, &ast.Field{Type: e})
+		}
+		if x.Results().Len() > 0 {
+			ft.Results = &ast.FieldList{}
+			for i := 0; i < x.Results().Len(); i++ {
+				e := n.typeExpr(x.Results().At(i).Type(), file)
+				if e == nil {
+					return nil
+				}
+				ft.Results.List = append(ft.Results.List, &ast.Field{Type: e})
+			}
+		}
+		return ft
 	}
 	return nil
 }
